@@ -180,6 +180,204 @@ func c20CheckScan(c *kit.Case, d *gen.Doc, truth []c20Obj, xf *kit.XFile, data [
 
 var c20EOLEndstream = regexp.MustCompile(`[\r\n]endstream`)
 
+// c20Updated appends an incremental update to d and damages the update's
+// cross-reference section.
+func c20Updated(c *kit.Case, d *gen.Doc, truth []c20Obj, xf *kit.XFile) {
+	rng := c.Rng
+	protected := map[uint32]bool{}
+	for _, k := range []string{"Root", "Info", "Encrypt"} {
+		if ref, ok := xf.Trailer[k].(kit.XRef); ok {
+			protected[ref.Num] = true
+		}
+	}
+	var refs []kit.XRef
+	maxNum := uint32(0)
+	for n, o := range xf.Objects {
+		refs = append(refs, kit.XRef{Num: n, Gen: o.Gen})
+		maxNum = max(maxNum, n)
+	}
+	sort.Slice(refs, func(i, j int) bool { return refs[i].Num < refs[j].Num })
+	for _, t := range truth {
+		if t.lenRef != nil {
+			protected[t.lenRef.Num] = true
+		}
+	}
+	type newDef struct {
+		ref        pdf.Reference
+		val        pdf.Object
+		start, end int
+	}
+	upd := bytes.Clone(d.Data)
+	if n := len(upd); n > 0 && upd[n-1] != '\n' && upd[n-1] != '\r' {
+		upd = append(upd, '\n')
+	}
+	updStart := len(upd)
+	st := &kit.XStyle{Rng: rng, Plain: true}
+	var defs []newDef
+	var rows []string
+	ndefs := 1 + rng.Intn(4)
+	used := map[uint32]bool{}
+	for i := 0; i < ndefs; i++ {
+		var ref kit.XRef
+		if rng.Chance(1, 4) || len(refs) == 0 {
+			maxNum++
+			ref = kit.XRef{Num: maxNum}
+		} else {
+			ref = kit.Pick(rng, refs)
+		}
+		if protected[ref.Num] || used[ref.Num] {
+			continue
+		}
+		used[ref.Num] = true
+		v := kit.XGenValue(rng, 2, refs)
+		if _, isRef := v.(kit.XRef); isRef {
+			v = kit.XArray{v}
+		}
+		var b bytes.Buffer
+		fmt.Fprintf(&b, "%d %d obj\n", ref.Num, ref.Gen)
+		st.Render(&b, v)
+		b.WriteString("\nendobj")
+		start := len(upd)
+		upd = append(upd, b.Bytes()...)
+		end := len(upd)
+		upd = append(upd, '\n')
+		defs = append(defs, newDef{pdf.NewReference(ref.Num, ref.Gen), gen.FromX(v), start, end})
+		rows = append(rows, fmt.Sprintf("%d 1\n%010d %05d n \n", ref.Num, start, ref.Gen))
+	}
+	if len(defs) == 0 {
+		return
+	}
+	xrefStart := len(upd)
+	tr := kit.XDict{}
+	for k, v := range xf.Trailer {
+		switch k {
+		case "Type", "W", "Index", "Filter", "DecodeParms", "Length", "XRefStm", "Prev":
+		default:
+			tr[k] = v
+		}
+	}
+	tr["Prev"] = int64(xf.StartXRef)
+	tr["Size"] = max(xf.Size, int64(maxNum)+1)
+	var b bytes.Buffer
+	b.WriteString("xref\n")
+	for _, row := range rows {
+		b.WriteString(row)
+	}
+	b.WriteString("trailer\n")
+	trailerStart := xrefStart + b.Len() - 8
+	st.Render(&b, tr)
+	fmt.Fprintf(&b, "\nstartxref\n%d\n%%%%EOF\n", xrefStart)
+	upd = append(upd, b.Bytes()...)
+	sx := bytes.LastIndex(upd, []byte("startxref"))
+
+	// the model: newest complete definition of every reference
+	check := func(data []byte, what string) {
+		avail := len(data)
+		fi := c20CheckScan(c, d, truth, xf, data, what, true)
+		if fi == nil {
+			return
+		}
+		c.R.Count("updated_files_scanned", 1)
+		ctx := func() string {
+			return fmt.Sprintf("%s\nops: %s\n%s: %d of %d bytes (Writer file %d bytes, update objects at %d, its xref at %d)",
+				d.Cfg.String(), strings.Join(d.Ops, " "), what, avail, len(upd), len(d.Data), updStart, xrefStart)
+		}
+		newest := map[pdf.Reference]pdf.Object{}
+		redefined := map[pdf.Reference]bool{}
+		for _, nd := range defs {
+			if nd.end > avail {
+				continue
+			}
+			newest[nd.ref] = nd.val
+			redefined[nd.ref] = true
+			var fo *pdf.FileObject
+			for _, sec := range fi.Sections {
+				for _, o := range sec.Objects {
+					if o.Reference == nd.ref && int(o.ObjStart) == nd.start {
+						fo = o
+					}
+				}
+			}
+			switch {
+			case fo == nil:
+				c.Violationf(what+"/complete-object-not-listed", "%s\nthe update's definition of %s at %d..%d is complete but not listed at its offset", ctx(), nd.ref, nd.start, nd.end)
+			case fo.Broken:
+				c.Violationf(what+"/complete-object-broken", "%s\nthe update's definition of %s at %d..%d is complete but marked broken", ctx(), nd.ref, nd.start, nd.end)
+			default:
+				val, err := fi.Read(fo)
+				if err != nil || !gen.Same(nd.val, val) {
+					c.Violationf(what+"/value", "%s\nthe update's definition of %s reads %s, %v; written %s", ctx(), nd.ref, kit.Trunc(gen.Canon(val), 300), err, kit.Trunc(gen.Canon(nd.val), 300))
+				} else {
+					c.R.Count("update_definitions_read", 1)
+				}
+			}
+		}
+		rd, err := fi.MakeReader(&pdf.ReaderOptions{ErrorHandling: pdf.ErrorHandlingStop})
+		if err != nil {
+			if c.R.Replaying() {
+				os.WriteFile(filepath.Join(c.R.OutDir(), fmt.Sprintf("updated-%d.pdf", avail)), data, 0o644)
+			}
+			c.Violationf(what+"/MakeReader", "%s\nthe Writer file's own trailer is intact: MakeReader: %v", ctx(), err)
+			return
+		}
+		c.R.Count("readers_made_from_damaged_files", 1)
+		for _, t := range truth {
+			if redefined[t.w.Ref] || t.w.IsStream {
+				continue
+			}
+			newest[t.w.Ref] = t.w.Value
+		}
+		for ref, want := range newest {
+			got, err := rd.Get(ref, true)
+			if err != nil || !gen.Same(want, got) {
+				key := what + "/MakeReader-value"
+				if redefined[ref] {
+					key = what + "/MakeReader-value/redefined-object"
+				}
+				c.Violationf(key, "%s\nGet(%s) = %s, %v; newest complete definition %s", ctx(), ref,
+					kit.Trunc(gen.Canon(got), 300), err, kit.Trunc(gen.Canon(want), 300))
+			} else if redefined[ref] {
+				c.R.Count("redefined_objects_resolved_to_newest", 1)
+			}
+		}
+	}
+
+	// cut anywhere from the first byte of the update to the byte before the end
+	for cut := updStart; cut < len(upd); cut++ {
+		check(upd[:cut], "updated/truncated")
+		c.R.Count("truncation_offsets", 1)
+	}
+	type region struct {
+		name     string
+		from, to int
+	}
+	for _, reg := range []region{
+		{"xref-keyword", xrefStart, xrefStart + 4},
+		{"xref-table", xrefStart, trailerStart},
+		{"xref-and-trailer", xrefStart, sx},
+		{"startxref-number", sx + 10, len(upd) - 7},
+		{"startxref-to-end", sx, len(upd)},
+	} {
+		for _, fill := range []string{"spaces", "letters"} {
+			dam := bytes.Clone(upd)
+			for i := reg.from; i < reg.to && i < len(dam); i++ {
+				if dam[i] == '\r' || dam[i] == '\n' {
+					continue
+				}
+				if fill == "spaces" {
+					dam[i] = ' '
+				} else {
+					dam[i] = byte('A' + rng.Intn(26))
+				}
+			}
+			check(dam, "updated/xref-damage/"+reg.name)
+			c.R.Seen("damage-kinds", "updated/"+reg.name+"/"+fill)
+		}
+	}
+	c.R.Count("documents_with_update", 1)
+	c.Distinct(fmt.Sprintf("upd|%s|%s|%d|%d", d.Cfg.Cell(), strings.Join(d.Ops, " "), len(d.Data), len(upd)))
+}
+
 func c20Config(c *kit.Case) gen.DocConfig {
 	cfg := gen.RandomConfig(c.Rng, -1)
 	cfg.Version = gen.Versions[c.Index%9]
@@ -264,6 +462,28 @@ func TestVerifC20(t *testing.T) {
 		c20CheckScan(c, d, truth, xf, d.Data, "complete-file", true)
 		c.R.Count("documents_with_endstream_lines", 1)
 		c.Distinct(fmt.Sprintf("es|%s|%s|%d", cfg.Cell(), strings.Join(d.Ops, " "), len(d.Data)))
+	})
+
+	// a Writer file with an incremental update appended (the same references
+	// defined again, and new ones), whose own cross-reference section is then cut
+	// off or overwritten: every definition is listed, and the recovered Reader
+	// resolves a reference to its newest complete definition
+	r.Phase("updated-file", r.N(48, 1500), func(c *kit.Case) {
+		cfg := c20Config(c)
+		d, err := gen.BuildDoc(c.Rng, cfg)
+		if err != nil {
+			c.Violationf("writer-refused-valid-call", "%v", err)
+			return
+		}
+		if len(d.Data) > 12000 {
+			c.R.Count("documents_skipped_too_large", 1)
+			return
+		}
+		truth, xf := c20Truth(c, d)
+		if truth == nil {
+			return
+		}
+		c20Updated(c, d, truth, xf)
 	})
 
 	// damage to the cross-reference data
